@@ -377,4 +377,88 @@ def decode_amiga(data, lo):
         problems.append(str(e))
     return mem, {}, problems
 
+
+def decode_macho(data, lo):
+    """Mach-O object file (mach-o/loader.h): mach_header[_64], load commands LC_SEGMENT[_64] with one section, LC_SYMTAB with
+    nlist[_64] entries and a string table.  The object is relocatable (segment address 0): the section's bytes are laid out
+    from `lo` upwards, as for bin."""
+    import struct
+    mem, problems, symbols = {}, [], {}
+    if len(data) < 28:
+        return mem, {"symbols": symbols}, ["shorter than a mach_header"]
+    magic_be = struct.unpack(">I", data[:4])[0]
+    magic_le = struct.unpack("<I", data[:4])[0]
+    if magic_be in (0xfeedface, 0xfeedfacf):
+        e, magic = ">", magic_be
+    elif magic_le in (0xfeedface, 0xfeedfacf):
+        e, magic = "<", magic_le
+    else:
+        return mem, {"symbols": symbols}, ["no Mach-O magic"]
+    is64 = magic == 0xfeedfacf
+    cputype, cpusub, filetype, ncmds, sizeofcmds, flags = struct.unpack(e + "6I", data[4:28])
+    off = 32 if is64 else 28
+    start = off
+    sect = None
+    symtab = None
+    for i in range(ncmds):
+        if off + 8 > len(data):
+            problems.append("load command %d starts past the end of the file" % i)
+            break
+        cmd, cmdsize = struct.unpack(e + "2I", data[off:off + 8])
+        if cmdsize < 8 or off + cmdsize > len(data):
+            problems.append("load command %d has size %d at offset %d of %d" % (i, cmdsize, off, len(data)))
+            break
+        body = data[off:off + cmdsize]
+        if cmd == 0x1 and not is64:
+            vmaddr, vmsize, fileoff, filesize, maxprot, initprot, nsects, sflags = struct.unpack(e + "8I", body[24:56])
+            if nsects >= 1:
+                addr, size, soff = struct.unpack(e + "3I", body[56 + 32:56 + 44])
+                sect = (addr, size, soff, fileoff, filesize)
+            if 56 + 68 * nsects != cmdsize:
+                problems.append("LC_SEGMENT of %d bytes for %d sections" % (cmdsize, nsects))
+        elif cmd == 0x19 and is64:
+            vmaddr, vmsize, fileoff, filesize = struct.unpack(e + "4Q", body[24:56])
+            maxprot, initprot, nsects, sflags = struct.unpack(e + "4I", body[56:72])
+            if nsects >= 1:
+                addr, size = struct.unpack(e + "2Q", body[72 + 32:72 + 48])
+                soff = struct.unpack(e + "I", body[72 + 48:72 + 52])[0]
+                sect = (addr, size, soff, fileoff, filesize)
+            if 72 + 80 * nsects != cmdsize:
+                problems.append("LC_SEGMENT_64 of %d bytes for %d sections" % (cmdsize, nsects))
+        elif cmd == 0x2:
+            symtab = struct.unpack(e + "4I", body[8:24])
+        off += cmdsize
+    if not problems and off - start != sizeofcmds:
+        problems.append("sizeofcmds is %d, the load commands take %d bytes" % (sizeofcmds, off - start))
+    if sect is None:
+        problems.append("no segment with a section")
+    else:
+        addr, size, soff, fileoff, filesize = sect
+        if soff != fileoff or size != filesize:
+            problems.append("section at %d+%d, segment at %d+%d" % (soff, size, fileoff, filesize))
+        if soff + size > len(data):
+            problems.append("section of %d bytes at offset %d in a file of %d" % (size, soff, len(data)))
+            size = max(0, len(data) - soff)
+        for j in range(size):
+            mem[(lo + j) & 0xffffffff] = data[soff + j]
+    if symtab is not None:
+        symoff, nsyms, stroff, strsize = symtab
+        nl = 16 if is64 else 12
+        if symoff + nsyms * nl > len(data) or stroff + strsize > len(data):
+            problems.append("symbol or string table past the end of the file")
+        else:
+            for k in range(nsyms):
+                ent = data[symoff + k * nl:symoff + (k + 1) * nl]
+                strx, ntype, nsect, ndesc = struct.unpack(e + "IBBH", ent[:8])
+                value = struct.unpack(e + ("Q" if is64 else "I"), ent[8:])[0]
+                if strx >= strsize:
+                    problems.append("symbol %d names offset %d in a string table of %d" % (k, strx, strsize))
+                    continue
+                end = data.find(b"\0", stroff + strx, stroff + strsize)
+                if end < 0:
+                    problems.append("symbol %d has an unterminated name" % k)
+                    continue
+                symbols[data[stroff + strx:end].decode("latin-1")] = (value, ntype)
+    return mem, {"symbols": symbols}, problems
+
 DECODERS = {"hex": decode_ihex, "srec": decode_srec, "wdc": decode_wdc, "uf2": decode_uf2, "elf": decode_elf}
